@@ -433,6 +433,11 @@ func prop(c Case) error {
 	return nil
 }
 
+// myStrategy is the robust strategy embedded in a type of the caller's.
+type myStrategy struct {
+	lineintersector.RobustLineIntersector
+}
+
 func propOne(c Case) error {
 	var P [4]exact.P2
 	for i := range P {
@@ -460,8 +465,11 @@ func propOne(c Case) error {
 		for k := range in {
 			handed[k] = in[k].Clone()
 		}
-		r := lineintersector.LineIntersectsLine(lineintersector.RobustLineIntersector{}, in[0], in[1], in[2], in[3])
-		what := fmt.Sprintf("robust, variant %d %v of %v", vi, idx, show(c))
+		// the strategy as a value, as a pointer, and embedded in a caller's own type: all
+		// three are the robust strategy
+		strategy := []lineintersector.Strategy{lineintersector.RobustLineIntersector{}, &lineintersector.RobustLineIntersector{}, myStrategy{}}[vi%3]
+		r := lineintersector.LineIntersectsLine(strategy, in[0], in[1], in[2], in[3])
+		what := fmt.Sprintf("robust (%T), variant %d %v of %v", strategy, vi, idx, show(c))
 		// (the points reported may alias the coordinates handed in - a collinear overlap is
 		// reported as the endpoint slices themselves; no statement says otherwise, so the
 		// result is only read here, never written)
